@@ -145,6 +145,14 @@ func (s *V2Session) buildAndSend(ctx context.Context, c ipmi.Command) error {
 	firstAttempt := true
 	terminalErr := error(nil)
 	retryable := func() error {
+		// the transport will not send once the context has finished; do not
+		// consume a session sequence number for a packet that never leaves,
+		// as the BMC would see a gap
+		if err := ctx.Err(); err != nil {
+			terminalErr = err
+			return nil
+		}
+
 		if firstAttempt {
 			firstAttempt = false
 		} else {
